@@ -33,10 +33,25 @@ def walk(e):
         yield from walk(e["e"])
 
 
+_U64 = None
+
+
+def _u64_ids():
+    """identities of the source columns of type uint64 (no signed integer type holds their range)"""
+    global _U64
+    if _U64 is None:
+        from . import sources as S
+
+        _U64 = {S.col_id(si, ci) for si, s in enumerate(S.all_sources(1)) for ci, (_, ty) in enumerate(s["cols"]) if ty == "uint64"}
+    return _U64
+
+
 def expr_tags(e, vis_ids=None):
     tags = set()
     for x in walk(e):
         k = x.get("k")
+        if k == "col" and x.get("id") in _u64_ids():
+            tags.add("col:uint64")
         if k == "agg":
             tags.add("expr:agg")
             tags.add("agg:" + x["op"])
@@ -90,7 +105,9 @@ def move_tags(m, in_obs=None):
     """tags of one move; in_obs: observation of its (left) input table, if known"""
     v = m["v"]
     tags = {"v:" + v}
-    if set(m) <= {"v", "i"}:        # abstract move of a trace-level failure: the verb name is all there is
+    if set(m) <= {"v", "i", "u64"}:        # abstract move of a trace-level failure: the verb name (and the uint64 flag) is all there is
+        if m.get("u64"):
+            tags.add("col:uint64")
         return tags
     vis_ids = set(in_obs["ids"]) if in_obs else None
     names = list(in_obs["names"]) if in_obs else None
